@@ -169,22 +169,20 @@ func (a *Adv) spendV2Forced(id types.SiacoinOutputID, lock Lock) (types.V2Transa
 	return txn, true
 }
 
-func (a *Adv) spendV1Forced(id types.SiacoinOutputID, lock Lock, sigTimelock uint64) (types.Transaction, bool) {
+func (a *Adv) spendV1Forced(id types.SiacoinOutputID, lock Lock, sigTimelock uint64, partial ...bool) (types.Transaction, bool) {
 	el, ok := a.G.C.Store.SC[id]
 	if !ok || lock.UC == nil {
 		return types.Transaction{}, false
 	}
 	txn := types.Transaction{SiacoinInputs: []types.SiacoinInput{{ParentID: id, UnlockConditions: *lock.UC}},
 		SiacoinOutputs: []types.SiacoinOutput{{Value: el.SiacoinOutput.Value, Address: types.Address{0xBB}}}}
-	SignV1(a.CS, &txn, false)
+	SignV1(a.CS, &txn, len(partial) > 0 && partial[0])
 	if sigTimelock > 0 {
 		for i := range txn.Signatures {
-			sig := &txn.Signatures[i]
-			sig.Timelock = sigTimelock
-			if priv, ok := PrivFor(types.PublicKey(lock.UC.PublicKeys[sig.PublicKeyIndex].Key)); ok {
-				s := priv.SignHash(a.CS.WholeSigHash(txn, sig.ParentID, sig.PublicKeyIndex, sig.Timelock, nil))
-				sig.Signature = s[:]
-			}
+			txn.Signatures[i].Timelock = sigTimelock
+		}
+		for i := range txn.Signatures {
+			ResignV1Slot(a.CS, &txn, i)
 		}
 	}
 	return txn, true
@@ -282,7 +280,8 @@ func (g *Gen) SetupBound(rule string) (sc BoundScenario, ok bool) {
 			}
 		}
 		return sc, true
-	case "v1-signature-timelock":
+	case "v1-signature-timelock", "v1-signature-timelock-partial-coverage":
+		partial := rule == "v1-signature-timelock-partial-coverage"
 		T := child + ahead
 		lock := std(1)
 		id, okp := b.PayV1To(lock.Address())
@@ -292,7 +291,7 @@ func (g *Gen) SetupBound(rule string) (sc BoundScenario, ok bool) {
 		sc.From, sc.To = T-2, T+1
 		sc.Want = func(a *Adv) bool { return a.Child >= T }
 		sc.Build = func(a *Adv) (types.Block, consensus.V1BlockSupplement, bool) {
-			txn, ok := a.spendV1Forced(id, lock, T)
+			txn, ok := a.spendV1Forced(id, lock, T, partial)
 			if !ok {
 				return types.Block{}, consensus.V1BlockSupplement{}, false
 			}
@@ -633,7 +632,7 @@ func min64(a, b uint64) uint64 {
 
 // BoundRules lists the rule names understood by SetupBound.
 var BoundRules = []string{
-	"v1-output-maturity", "v2-output-maturity", "v1-unlock-conditions-timelock", "v2-uc-policy-timelock", "v1-signature-timelock",
+	"v1-output-maturity", "v2-output-maturity", "v1-unlock-conditions-timelock", "v2-uc-policy-timelock", "v1-signature-timelock", "v1-signature-timelock-partial-coverage",
 	"v2-above", "v2-after", "v1-revision-window-start", "v1-revision-window-unchanged", "v1-proof-window", "v1-formation-window-start", "v1-proof-after-window-revised-in-block",
 	"v2-revision-proof-height", "v2-proof-height", "v2-expiration-height", "v2-formation-proof-height",
 	"v1-until-require-height", "v2-from-allow-height", "v2-ephemeral-parent-maturity",
